@@ -7,7 +7,9 @@ PID = "C18"
 
 
 def make_job(rng, idx, quick):
-    cfg, env = cr.gen_config(rng, allow_nonlinear=False, max_up=64, max_down=200)
+    # half the jobs with every datatype / layout (split or interleaved on each side) and 1-4 channels: what is delivered is then
+    # also compared, byte for byte, with a one-shot run over exactly the frames that were supplied
+    cfg, env = cr.gen_config(rng, allow_nonlinear=False, max_up=64, max_down=200, datatypes=rng.chance(.5), channels=rng.chance(.5))
     total = rng.choice([0, 5, 300, 5000, 40000]) if rng.chance(.6) else rng.below(30000)
     total = min(total, int(100000 * max(1.0, cr.io_ratio(cfg))), int(100000 * cr.io_ratio(cfg)) + 3)
     return {"cfg": cfg, "env": env, "N": total, "seed": rng.next() & 0xffffffff, "idx": idx,
@@ -69,6 +71,7 @@ def oracle(job, tr):
     bad = []
     maxilen = job.get("maxilen", 0)
     ended = failed = False
+    short_seen = False
     supplied = 0
     out = 0
     err_reported = None
@@ -101,6 +104,12 @@ def oracle(job, tr):
             if failed and not answers_contains_fail_now(answers) and od:
                 bad.append(("output-after-fail", "%d frames produced by a call made after the failure" % od))
             out += od
+            # a short answer (fewer frames than asked for, no failure) means the stream is over: nothing may come afterwards
+            if short_seen and od and not failed:
+                bad.append(("short-then-more", "a soxr_output call returned fewer frames than requested although the stream had not "
+                            "drained: %d more frames came from a later call" % od))
+            if od < olen and not failed and r.get("err") != "1":
+                short_seen = True
             if failed and r.get("err") != "1":
                 bad.append(("no-error-state", "failure reported but the resampler is not in the error state"))
             if bad:
@@ -137,6 +146,31 @@ def run(ctx):
         ctx.hist("dist_style", job["style"])
         ctx.hist("dist_max_ilen", job.get("maxilen"))
         ctx.count("frames_supplied", info.get("supplied", 0))
+    # "everything supplied is consumed exactly once, in order": the delivered bytes of a stream that ended normally equal those of
+    # soxr_oneshot-style processing of exactly the supplied frames (the harness' signal is a function of the stream position)
+    refs = [(job, tr, info) for job, ops, tr, bad, info in res
+            if not bad and info.get("ended") and not info.get("failed") and tr.hashes]
+
+    def ref_work(x):
+        job, tr, info = x
+        n = info["supplied"]
+        est = int(n / cr.io_ratio(job["cfg"])) + 110
+        t2 = cr.run_trace(exe, [cr.create_line(job["cfg"]), "limit %d" % n, "proc 1 1 1 %d %d" % (n, est), "hash"], job["env"], timeout=300)
+        return job, tr, t2
+
+    strip = lambda h: " ".join(t for t in h.split() if not t.startswith("pos="))
+    for job, tr, t2 in cr.pmap(ref_work, refs):
+        ctx.count("pull_vs_oneshot_compared")
+        if t2.rc != 0 or not t2.hashes:
+            continue
+        if strip(tr.hashes[-1]) != strip(t2.hashes[-1]):
+            kn = [k for k in cr.classify_known(tr.plan, job["cfg"]) if k in {f["id"] for f in common.known_active(PID)}]
+            if kn:
+                ctx.known(kn[0], "pull output differs from one-shot output"); continue
+            ctx.violation("C18 fails on the real code: what the pull stream delivered is not the resampling of the frames supplied, in order "
+                          "(pull %s / one-shot of the same %d frames %s) (%s %s)" % (strip(tr.hashes[-1]), job.get("N"), strip(t2.hashes[-1]),
+                                                                                   cr.create_line(job["cfg"]), job["env"]),
+                          {"cfg": job["cfg"], "env": job["env"], "ops": job_ops(job, tr.plan), "pull": tr.hashes[-1], "oneshot": t2.hashes[-1]})
     ctx.cov["rule"] = ("pull-mode streams over random configurations with a scripted input function: full / single-frame / random short "
                        "supplies, end-of-input or failure at a random call index (then three more data answers on offer), max_ilen in "
                        "{0,1,7,64,1000,100000}, optional soxr_clear after registration; every (request, answer) pair logged by the harness, "
